@@ -9,11 +9,42 @@ NUMS = [0.0, 1.0, -1.0, 1.5, 1e20, 42.0, 2147483648.0, 0.25, -7e-3, 123456789.0]
 STRS = [b'', b'x', b'X', b'hello', b'a/b', b'~', b'\xc3\xa9', b'with space', b'0']
 
 
+def deep_cases(prop):
+    """documents at the parser's nesting limit that differ only in the innermost value: generation must
+    see the difference, application must reach it (expected records per op index)"""
+    from . import jsonref
+    from .runner import REPO
+    lim = jsonref.nesting_limit(REPO)
+    out = []
+    for op, cl in ((b'[', b']'), (b'{"a":', b'}')):
+        for depth in (lim - 1, lim):
+            for la, lb in ((b'"x"', b'"y"'), (b'1', b'2'), (b'{"k":1}', b'{"k":1,"n":null}') if prop == 'C17' else (b'{"k":1}', b'{"k":1,"n":2}'), (b'[1]', b'[1,2]')):
+                if la[:1] in b'{[' and depth == lim:
+                    continue
+                if prop == 'C18' and op == b'[':
+                    continue      # merge patches replace arrays wholesale: nothing deep to reach
+                ta = '*%d:%s:%s:%s' % (depth, op.hex(), la.hex(), cl.hex())
+                tb = '*%d:%s:%s:%s' % (depth, op.hex(), lb.hex(), cl.hex())
+                if prop == 'C17':
+                    ops = ['parse 1 2 %s 0' % ta, 'parse 2 2 %s 0' % tb, 'genp 3 1 2 1', 'size 3', 'parse 4 2 %s 0' % ta, 'patch 4 3 1', 'cmp 4 2 1', 'chk 1', 'chk 2', 'del 1', 'del 2', 'del 3', 'del 4']
+                    exp = {2: ['p'], 5: ['0'], 6: ['1']}
+                    nonzero = 3
+                else:
+                    ops = ['parse 1 2 %s 0' % ta, 'parse 2 2 %s 0' % tb, 'genm 3 1 2 1', 'parse 4 2 %s 0' % ta, 'merge 5 4 3 1', 'cmp 5 2 1', 'chk 1', 'chk 2', 'del 1', 'del 2', 'del 3', 'del 5']
+                    exp = {2: ['p'], 4: ['p'], 5: ['1']}
+                    nonzero = None
+                out.append((ops, exp, nonzero, 'depth %d, %s -> %s' % (depth, la.decode(), lb.decode())))
+    return out
+
+
 def plan(prop, tier):
     q = tier == 'quick'
     n = 16 if q else 64
     per = {'C15': 130, 'C16': 1300, 'C17': 650, 'C18': 900}[prop] if q else {'C15': 3500, 'C16': 35000, 'C17': 17000, 'C18': 24000}[prop]
-    return ['asan', 'plain', 'efence'], [('utils', SEED * 1000 + i, per) for i in range(n)]
+    shards = [('utils', SEED * 1000 + i, per) for i in range(n)]
+    if prop in ('C17', 'C18'):
+        shards.append(('deep', 0, 0))
+    return ['asan', 'plain', 'efence'], shards
 
 
 # ---------------------------------------------------------------------------------------------
@@ -228,6 +259,9 @@ def gen_valid_ops(rng, doc, nops):
                     tok = rng.choice([b'-', b'%d' % len(c.kids), b'0', b'%d' % rng.randrange(len(c.kids) + 1)])
                 else:
                     tok = rfc.esc(rng.choice(PTR_KEYS if rng.random() < 0.7 else [k.key for k in c.kids] or PTR_KEYS))
+                    if rng.random() < 0.04:
+                        # pointers around typical fixed buffer sizes
+                        tok = b'L' * max(1, rng.choice([126, 127, 128, 254, 255, 256, 257, 258, 511, 512, 1023, 1024]) - len(base) - 1 + rng.choice([0, 0, 1, len(base) + 1]))
                 op = opobj(op=b'add', path=base + b'/' + tok, value=random_value(rng))
         elif kind in ('remove', 'replace', 'test'):
             n = rng.choice(nodes)
@@ -833,6 +867,32 @@ def run_shard(shard_prop, bins, workdir, tier):
     rng = random.Random('%s-%s' % (prop, seed))
     cases = []
     exs = {}
+    if kind == 'deep':
+        dc = deep_cases(prop)
+        cases = [(i, 'default' if i % 2 else 'custom', d[0]) for i, d in enumerate(dc)]
+        for fl, binary in bins.items():
+            by_id = {c[0]: (c[1], c[2]) for c in cases}
+            wit = case_witness(by_id, fl)
+            logs = run_batch(binary, fl, cases, workdir, '%s-deep' % prop)
+            for i, (ops, exp, nonzero, label) in enumerate(dc):
+                cl = logs[i]
+                out.vios += mechanical_violations(prop, cl, wit)
+                out.evals += 1
+                out.seen('deep', label)
+                out.count('nontrivial')
+                out.count('deep-cases')
+                if cl.died:
+                    continue
+                for idx, e in exp.items():
+                    if cl.ops.get(idx) != e:
+                        out.vios.append(Violation(prop, '%s/deep/%s' % (prop, ops[idx].split()[0]), '%s: op %d `%s` answered %s, expected %s' % (label, idx, ops[idx][:60], cl.ops.get(idx), e), wit(cl, idx)))
+                        break
+                else:
+                    if nonzero is not None and cl.ops.get(nonzero) in (['0'], None):
+                        out.vios.append(Violation(prop, '%s/deep/empty-patch-for-different' % prop, '%s: generated patch is empty' % label, wit(cl, nonzero)))
+                if cl.end and cl.end.get('live') != '0':
+                    out.vios.append(Violation(prop, '%s/deep/leak' % prop, '%s blocks live at the end' % cl.end['live'], wit(cl, 0)))
+        return out
     maker = {'C15': case_c15, 'C16': case_c16, 'C17': case_c17, 'C18': case_c18}[prop]
     for i in range(count):
         c, ex = maker(rng, i)
